@@ -4,7 +4,9 @@ The dispatcher's service loop is endless; the contracts run the REAL `run()` for
 the link stub hands out the packets and then raises the pseudo exception StopLoop (a BaseException, so the
 `except Exception` around callbacks cannot swallow it).
 
-Not covered (needs thread interleavings): registrations performed from OTHER threads during dispatch.
+Thread interleavings are covered only as explicit schedules (`dispatch.request-registered-during-answer-scan`: another thread's
+send_packet runs while the dispatcher scans the answer patterns); registrations performed from OTHER threads at arbitrary
+points of the dispatch are not covered.
 Assumed: callbacks raise only Exception subclasses; packet_received callbacks (outside the try) do not raise.
 """
 from pyvc.api import contract
@@ -235,3 +237,54 @@ def api_registration(c):
     c.ensure('same-arguments-remove-exactly-that-registration', 'raised is None and tuple(cf.incoming.cb) == before[:%d] + before[%d:]' % (n0, n0 + 1))
     c.call((cf, 'remove_port_callback'), c.get('port2'), cb2)
     c.ensure('port-registration-removed', 'raised is None and tuple(cf.incoming.cb) == before[:%d]' % n0)
+
+
+@contract('C07', 'dispatch.request-registered-during-answer-scan', RUN + [CF + ':Crazyflie._check_for_answers', CF + ':Crazyflie.send_packet'],
+          clause='every packet received from the link is passed to the matching callbacks and later packets are still processed, also when '
+                 'another thread sends a request with an expected reply (which registers an answer pattern) while the dispatcher thread is '
+                 'scanning the pending answer patterns for this packet',
+          bounded='explicit schedule: one pending request; the other thread\'s send_packet(expected_reply=...) runs when the dispatcher '
+                  'thread is inside the first logging call of the scan (a thread switch is possible there); two received packets, on ports 9..12')
+def request_during_scan(c):
+    c.use_stubs(CF, ['Timer'])
+    cf = c.new(CF + ':Crazyflie')
+    c.let('cf', cf)
+    c.int('h0', 0, 255), c.int('h1', 0, 255), c.int('h2', 0, 255), c.int('e1', 0, 255), c.int('e2', 0, 255)
+    c.int('rh', 0, 255)
+    c.require('(h1, e1) != (h2, e2)')
+    rx1 = c.new(STK + ':CRTPPacket', c.get('rh'), c.bytes('d1', 2))
+    rx2 = c.new(STK + ':CRTPPacket', c.get('h0'), c.bytes('d2', 1))
+    c.let('rx1', rx1), c.let('rx2', rx2)
+    # received packets are on ports no subsystem listens to (9..12): what the subsystems do with packets is not this clause
+    c.require('9 <= (rh >> 4) <= 12 and 9 <= (h0 >> 4) <= 12')
+    queue = [rx1, rx2]
+    stop = c.raiser('StopLoop')
+
+    def rx(*_a):
+        if queue:
+            return queue.pop(0)
+        return stop()
+    link = c.ext('link', attrs={'needs_resending': True}, returns={'receive_packet': rx})
+    c.set(cf, 'link', link)
+    cb = c.ext('cb')
+    c.snapshot('p0', 'h0 >> 4')
+    c.call((cf, 'add_port_callback'), c.get('p0'), cb)
+    req1 = c.new(STK + ':CRTPPacket', c.get('h1'), c.bytes('q1', 1))
+    req2 = c.new(STK + ':CRTPPacket', c.get('h2'), c.bytes('q2', 1))
+    c.call((cf, 'send_packet'), req1, (c.get('e1'),))
+    c.require('raised is None and len(cf._answer_patterns) == 1')
+    done = []
+
+    def debug(_i, args, _k):
+        if not done:
+            done.append(1)
+            # the other thread runs now: it sends a request whose reply it wants matched
+            c.invoke((cf, 'send_packet'), req2, (c.get('e2'),))
+        return None
+    c.patch(CF + ':logger', c.ext('logger', returns={'debug': debug}))
+    c.reset_trace()
+    c.call((c.getfield(cf, 'incoming'), 'run'))
+    c.ensure('dispatcher-survives-both-packets', "raised == 'StopLoop' and len(sent('link.receive_packet')) == 3")
+    c.ensure('second-packet-delivered-to-its-port-callback', "len([x for x in sent('cb') if is_same(x[1][0], rx2)]) == 1")
+    c.ensure('first-packet-delivered-iff-port-matches', "iff(len([x for x in sent('cb') if is_same(x[1][0], rx1)]) == 1, rh >> 4 == h0 >> 4)")
+    c.ensure('schedule-really-ran-the-other-thread', "len(sent('link.send_packet')) == 1 and len(sent('Timer')) == 1")
